@@ -108,6 +108,6 @@ Example C19_scope_nonvacuous :
 Proof. vm_compute. repeat split. Qed.
 
 Example C19_print_nonvacuous :
-  print_expr (PCall (PAttr (PName (s2l "a")) (s2l "b")) [PBin (s2l "Add") (PConst (s2l "1") true) (PName (s2l "x"))] [(Some (s2l "k"), PTuple [PName (s2l "y")])])
+  print_expr (PCall (PAttr (PName (s2l "a")) (s2l "b")) [PBin (s2l "Add") (PConst (s2l "1") 1) (PName (s2l "x"))] [(Some (s2l "k"), PTuple [PName (s2l "y")])])
   = Some (s2l "a.b((1 + x), k=(y,))").
 Proof. vm_compute. reflexivity. Qed.
